@@ -56,6 +56,43 @@ def same(impl, model_log, f32=False):
     return C.close_log(impl, model_log)
 
 
+def gl_large_spaces(chk, r, tier, sig):
+    """genotype_likelihoods over spaces of more than 1024 / 4096 genotypes: the array has one entry per genotype and entry i is the
+    read likelihood of the i-th genotype in VCF order (`index_as_genotype_alleles(i)`), float32 storage allowed for"""
+    import itertools as _it
+    from mchap.calling.likelihood import log_likelihood_alleles
+    from mchap.calling.exact import genotype_likelihoods
+    from mchap.jitutils import index_as_genotype_alleles
+    big = [(4, 13), (6, 8), (2, 60), (4, 12), (3, 30), (8, 7)]
+    r.shuffle(big)
+    for ploidy_, n_haps in big[: {"warm": 1, "quick": 3, "thorough": 6}[tier]]:
+        n_base = 6
+        space = list(_it.product(range(2), repeat=n_base))
+        haps = [list(h) for h in r.sample(space, n_haps)]
+        harr = np.array(haps, dtype=np.int8)
+        truth = [haps[r.randrange(n_haps)] for _ in range(ploidy_)]
+        reads, counts = G.gen_reads(r, [2] * n_base, r.randint(3, 8), haps=truth, style="encoded")
+        gls = genotype_likelihoods(reads, ploidy_, harr, read_counts=counts)
+        n_gen = math.comb(n_haps + ploidy_ - 1, ploidy_)
+        chk.count("genotype_likelihoods:space>1024")
+        chk.case(("gl-large", ploidy_, n_haps, n_gen), n_gen > 1024)
+        if len(gls) != n_gen:
+            chk.violation("genotype_likelihoods: the array does not have one entry per genotype", {"ploidy": ploidy_, "n_haplotypes": n_haps,
+                          "length": int(len(gls)), "expected": n_gen}, sig)
+            continue
+        for gi in range(n_gen):
+            g_ = index_as_genotype_alleles(gi, ploidy_)
+            ref = float(log_likelihood_alleles(reads, counts, harr, g_))
+            got = float(gls[gi])
+            ok = (got == ref) if not math.isfinite(ref) else (math.isfinite(got) and abs(got - ref) <= 4.0 * float(np.spacing(np.float32(abs(ref) + 1.0))))
+            if not ok:
+                chk.violation("genotype_likelihoods: an entry is not the read likelihood of that genotype (float32 storage allowed for)",
+                              {"ploidy": ploidy_, "n_haplotypes": n_haps, "haplotypes": haps, "counts": counts.tolist(), "genotype_index": gi,
+                               "genotype": [int(x) for x in g_], "entry": got, "log_likelihood_alleles": ref}, sig)
+                break
+
+
+
 def run(tier, replay=None):
     from mchap.assemble.likelihood import log_likelihood, log_likelihood_structural_change
     from mchap.jitutils import structural_change
@@ -350,6 +387,8 @@ def run(tier, replay=None):
             gi0 = int(genotype_alleles_as_index(np.sort(aarr)))
             if not same(llk_tag(float(gls[gi0])), m1, f32=True):
                 chk.disagreement("genotype_likelihoods entry != model likelihood of that genotype", {**case, "impl": float(gls[gi0]), "model": m1})
+
+    gl_large_spaces(chk, r, tier, "C04/genotype_likelihoods/entry")
 
     # ---------------- the pedigree wrapper as the sampler uses it: one cache object for all individuals of a family
     # (different ploidies, any listing order); every value it returns must be the mixture likelihood of that
